@@ -186,7 +186,11 @@ def known_findings(prop):
 
 # ------------------------------------------------------------------------------ evidence
 def write_evidence(prop, tier, seed, level, coverage, assumptions, wall, violations):
-    os.makedirs(EVIDENCE, exist_ok=True)
+    evdir = EVIDENCE
+    if os.path.abspath(REPO) != "/repo":
+        # sensitivity experiments on scratch copies (VERIF_REPO) must not overwrite the evidence of the real tree
+        evdir = os.path.join("/dev/shm", "verif-evidence-scratch")
+    os.makedirs(evdir, exist_ok=True)
     ev = {
         "property_id": prop,
         "tier": tier,
@@ -197,10 +201,10 @@ def write_evidence(prop, tier, seed, level, coverage, assumptions, wall, violati
         "wall_s": round(wall, 2),
         "violations": int(violations),
     }
-    tmp = os.path.join(EVIDENCE, prop + ".json.tmp")
+    tmp = os.path.join(evdir, prop + ".json.tmp%d" % os.getpid())
     with open(tmp, "w") as f:
         json.dump(ev, f, indent=1, ensure_ascii=True)
-    os.replace(tmp, os.path.join(EVIDENCE, prop + ".json"))
+    os.replace(tmp, os.path.join(evdir, prop + ".json"))
 
 
 def scratch_dir(tag):
